@@ -218,7 +218,7 @@ def run_case(spec):
                     st, oo = runner.ort_run(x, f)
                     return st == "ok" and compare.compare_outputs(o1, mask_nd(oo), scale=scale) is None
 
-                culprit = optcommon.attribute(m, o, passes, fired, known)
+                culprit = optcommon.attribute(m, o, passes, fired, known, first=("fold:" if kind == "dtype" else None))
                 key = c03core._key(culprit, kind)
                 if key in reported:
                     continue
